@@ -31,6 +31,11 @@ pub enum Dev {
     ResubmittedApprovalAfterDelivery,
     /// delivered, then an approval for the same id with other content is submitted, then that content is delivered
     ReapprovedOtherContentAfterDelivery,
+    /// delivered, then a NEW honestly signed batch is submitted in which the delivered message stands next to a message the
+    /// gateway has not seen - k: 0 same id under another chain, in front; 1 same chain, another id, in front; 2 same id
+    /// under another chain, behind; 3 chain and id mirrored (chain = the id, id = the chain), in front; 4 the delivered
+    /// message listed twice - then delivered again
+    ResubmittedBesideSiblingAfterDelivery(u8),
     /// approved for (chain + SEP + "p", id) but delivered as (chain, "p" + SEP + id): the same characters,
     /// split differently between chain and id
     ApprovedSeparatorShift(u8),
@@ -68,7 +73,12 @@ fn case_space_variant(chain: &str, id: &str, src: &str, k: u8) -> (String, Strin
 
 const SEPS: [&str; 8] = ["", "_", ":", "-", "/", "|", ".", " "];
 
-const DEVS: [Dev; 33] = [
+const DEVS: [Dev; 38] = [
+    Dev::ResubmittedBesideSiblingAfterDelivery(0),
+    Dev::ResubmittedBesideSiblingAfterDelivery(1),
+    Dev::ResubmittedBesideSiblingAfterDelivery(2),
+    Dev::ResubmittedBesideSiblingAfterDelivery(3),
+    Dev::ResubmittedBesideSiblingAfterDelivery(4),
     Dev::DeliveredNamingOtherChain,
     Dev::ApprovedForAddressKindTwin,
     Dev::None,
@@ -159,7 +169,7 @@ impl Property for C16 {
                 if example_app {
                     v.push(Case { example_app, dev, chain: 0, id: 0, src: 0, payload_len: 10, seed: 1, days_before: 0, days_after: 0, rotation_after: 0, its_app: true });
                 }
-                if matches!(dev, Dev::None | Dev::DeliveredTwice | Dev::ResubmittedApprovalAfterDelivery | Dev::ReapprovedOtherContentAfterDelivery) {
+                if matches!(dev, Dev::None | Dev::DeliveredTwice | Dev::ResubmittedApprovalAfterDelivery | Dev::ReapprovedOtherContentAfterDelivery | Dev::ResubmittedBesideSiblingAfterDelivery(_)) {
                     for r in [1u8, 2] {
                         v.push(Case { example_app, dev, chain: 0, id: 0, src: 0, payload_len: 10, seed: 1, days_before: 0, days_after: 0, rotation_after: r, its_app: false });
                     }
@@ -235,7 +245,7 @@ impl Property for C16 {
         let mut p2 = payload.clone();
         p2.push(1);
         let approvals: Vec<Message> = match case.dev {
-            Dev::None | Dev::DeliveredTwice | Dev::ReapprovedOtherContentAfterDelivery => vec![mk(&app, chain, id, src, &payload)],
+            Dev::None | Dev::DeliveredTwice | Dev::ReapprovedOtherContentAfterDelivery | Dev::ResubmittedBesideSiblingAfterDelivery(_) => vec![mk(&app, chain, id, src, &payload)],
             // (a batch of two: another message, for the other app, stands in front of the studied one - the whole batch is
             // what gets re-submitted later, when both of its members are known to the gateway)
             Dev::ResubmittedApprovalAfterDelivery => vec![mk(&other_app, chain, &format!("{}-neighbour", id), src, &payload), mk(&app, chain, id, src, &payload)],
@@ -329,7 +339,16 @@ impl Property for C16 {
         let app_events = |from: u32| -> usize { events_since(&env, from).into_iter().filter(|e| e.0 == app).count() };
         let executed = || gw.client.is_message_executed(&sstr(&env, chain), &sstr(&env, id));
 
-        let matching = matches!(case.dev, Dev::None | Dev::DeliveredTwice | Dev::AlsoApprovedForOtherApp | Dev::ResubmittedApprovalAfterDelivery | Dev::ReapprovedOtherContentAfterDelivery);
+        // the mirror image of the studied message (chain and id exchanged) was approved for and delivered to the same app
+        // earlier: another message altogether, whose status must not shadow the studied one's
+        if case.seed % 11 == 10 && !case.its_app && chain != id && !window_open {
+            gw.approve(&env, &set, &[mk(&app, id, chain, src, &payload)])?;
+            env.set_auths(&[]);
+            let okm = matches!(client.try_execute(&sstr(&env, id), &sstr(&env, chain), &sstr(&env, src), &Bytes::from_slice(&env, &payload)), Ok(Ok(())));
+            ensure_p!(okm, "delivery of an approved message (chain and id exchanged with respect to the studied one) to the app failed");
+            cx.label("mirror_image_message_delivered_before");
+        }
+        let matching = matches!(case.dev, Dev::None | Dev::DeliveredTwice | Dev::AlsoApprovedForOtherApp | Dev::ResubmittedApprovalAfterDelivery | Dev::ReapprovedOtherContentAfterDelivery | Dev::ResubmittedBesideSiblingAfterDelivery(_));
         let snap0 = snapshot(&env);
         let ev0 = events_len(&env);
         let count0 = mini.count();
@@ -387,6 +406,24 @@ impl Property for C16 {
                     ensure_p!(!deliver(), "a delivered message was accepted again after its approval had been re-submitted to the gateway");
                     ensure_p!(app_events(ev2) == 0, "the app acted on a re-opened message");
                     ensure_p!(executed(), "gateway no longer reports the message executed");
+                }
+                Dev::ResubmittedBesideSiblingAfterDelivery(k) => {
+                    let me = mk(&app, chain, id, src, &payload);
+                    let other_chain = format!("{}-sibling", chain);
+                    let batch = match k % 5 {
+                        0 => vec![mk(&other_app, &other_chain, id, src, &payload), me],
+                        1 => vec![mk(&other_app, chain, &format!("{}-sibling", id), src, &payload), me],
+                        2 => vec![me, mk(&other_app, &other_chain, id, src, &payload)],
+                        3 => vec![mk(&other_app, id, chain, src, &payload), me],
+                        _ => vec![me.clone(), me],
+                    };
+                    gw.approve(&env, &set, &batch)?;
+                    env.set_auths(&[]);
+                    let ev2 = events_len(&env);
+                    ensure_p!(!deliver(), "a delivered message was accepted again after it had been re-submitted to the gateway in a new batch beside a sibling message (variant {})", k % 5);
+                    ensure_p!(app_events(ev2) == 0, "the app acted on a re-opened message");
+                    ensure_p!(executed(), "gateway no longer reports the message executed");
+                    cx.label("delivered_message_resubmitted_beside_a_sibling");
                 }
                 Dev::ReapprovedOtherContentAfterDelivery => {
                     gw.approve(&env, &set, &[mk(&app, chain, id, src, &p2)])?;
